@@ -72,6 +72,10 @@ def adversarial(rng, doc):
     f = gen.gen_file(rng, doc, o)
     keys = [k for k in (doc if isinstance(doc, dict) else {})] or ["a"]
     k = rng.choice(keys)
+    if isinstance(doc, dict) and isinstance(doc.get("Resources"), dict) and rng.random() < 0.7:
+        # template-shaped document: aim at resource properties so the template-aware console reporters are driven
+        props = sorted({p for r_ in doc["Resources"].values() if isinstance(r_, dict) and isinstance(r_.get("Properties"), dict) for p in r_["Properties"]})
+        k = "Resources.*.Properties.%s" % rng.choice(props) if props else "Resources.*.Type"
     shapes = {
         "filter-after-this": "rule x { this[ %s exists ] !empty }" % k,
         "filter-after-index": "rule x { %s[0][ this exists ] exists }" % k,
@@ -99,6 +103,8 @@ def adversarial(rng, doc):
         "key-capture": "rule x { %s[ cap | this exists ] exists\n %%cap !empty\n %s[ cap ] exists }" % (k, k),
         "not-empty-block": "rule x { %s !empty { this exists } }" % k,
         "query-rhs-unresolved": "rule x { %s == zz.y.w\n %s in zz\n zz.y < %s }" % (k, k, k),
+        "odd-custom-messages": "rule x { %s == \"__no__\" << ; >>\n %s !exists <<>>\n %s == 1 << >>\n %s in [\"__no__\"] <<;;>>\n %s is_null <<\n multi\n line ; with; semis\n>>\n zz.y == 2 <<a;>> }" % (k, k, k, k, k),
+        "odd-rule-names": "rule default { %s exists }\nrule x1_ { default }\nrule X { not x1_ or %s == 0 <<é ü>> }" % (k, k),
         "now-and-epoch": "rule x { let n = now()\n %n > 0\n let e = parse_epoch(\"2024-01-01T00:00:00Z\")\n %e < %n }",
     }
     if rng.random() < 0.5:
@@ -116,9 +122,16 @@ BAD_DOCS = {
 }
 
 
-def run_all_channels(ctx, rtext, dtext, cls):
+def run_all_channels(ctx, rtext, dtext, cls, ovf=None):
     """one (rules, data) pair through the in-process front ends; returns list of (channel, result)"""
     out = []
+    if ovf is not None:
+        # the same front ends in the worker compiled with arithmetic-overflow checks
+        out.append(("run_checks-verbose+ovf", ovf.run({"k": "rc", "data": dtext, "rules": rtext, "verbose": True})))
+        out.append(("payload+ovf", ovf.run({"k": "cli", "argv": ["validate", "--payload", "-S", "all"], "stdin": json.dumps({"rules": [rtext], "data": [dtext]})})))
+        out.append(("payload-structured+ovf", ovf.run({"k": "cli", "argv": ["validate", "--payload", "--structured", "-S", "none", "-o", "junit"], "stdin": json.dumps({"rules": [rtext], "data": [dtext]})})))
+        out.append(("validate-files+ovf", ovf.run({"k": "cli", "argv": ["validate", "-r", "{S}/r.guard", "-d", "{S}/d.json", "-S", "all"], "files": {"r.guard": rtext, "d.json": dtext}})))
+        return out
     out.append(("run_checks", ctx.w.run({"k": "rc", "data": dtext, "rules": rtext, "verbose": False})))
     out.append(("run_checks-verbose", ctx.w.run({"k": "rc", "data": dtext, "rules": rtext, "verbose": True})))
     out.append(("payload", ctx.w.run({"k": "cli", "argv": ["validate", "--payload", "-S", "all"], "stdin": json.dumps({"rules": [rtext], "data": [dtext]})})))
@@ -150,6 +163,14 @@ def judge(ctx, channel, res, case, cls, rules_parse=None):
 
 def shard(ctx):
     rng = ctx.rng("c08")
+    ovf = core.Worker(binary=core.OVF_BIN)
+    try:
+        _shard(ctx, rng, ovf)
+    finally:
+        ovf.close()
+
+
+def _shard(ctx, rng, ovf):
     # ------------------------------------------------ (1) mutated rule texts
     n1 = 260 if ctx.quick else 9000
     parse_err_positions = set()
@@ -188,11 +209,13 @@ def shard(ctx):
         doc = gen.gen_doc(rng)
         if rng.random() < 0.3:
             doc = {"a": "a" * 40, "l": [{"x": 1}, {"x": "é"}], "m": {"k": {"z": [1, 2]}}, "s": "héllo wörld", "n": 5}
+        elif rng.random() < 0.3:
+            doc = gen.gen_cfn_doc(rng, nres=rng.randint(1, 3))
         dtext = json.dumps(doc) if rng.random() < 0.7 else mutate(rng, json.dumps(doc), 1)
         cls, rtext = adversarial(rng, doc)
         case = {"kind": "pair", "rules": rtext, "data": dtext, "shape": cls}
         ctx.res.counts["shape:" + cls] += 1
-        for channel, res in run_all_channels(ctx, rtext, dtext, cls):
+        for channel, res in run_all_channels(ctx, rtext, dtext, cls) + run_all_channels(ctx, rtext, dtext, cls, ovf):
             judge(ctx, channel, res, dict(case, channel=channel), cls)
         if t % 6 == 0:
             names = re.findall(r"^rule (\w+)\s*(?:when|\{)", rtext, re.M)
@@ -213,7 +236,7 @@ def shard(ctx):
         if not ctx.mine(idx) and name != "mutated-doc":
             continue
         case = {"kind": "pair", "rules": rtext, "data": dtext, "shape": name}
-        for channel, res in run_all_channels(ctx, rtext, dtext, name)[:5]:
+        for channel, res in run_all_channels(ctx, rtext, dtext, name)[:5] + run_all_channels(ctx, rtext, dtext, name, ovf):
             judge(ctx, channel, res, dict(case, channel=channel), "doc:" + name)
         # as parameter file, as test spec, as payload envelope
         res = ctx.w.run({"k": "cli", "argv": ["validate", "-r", "{S}/r.guard", "-d", "{S}/d.json", "-i", "{S}/p.yaml"], "files": {"r.guard": rtext, "d.json": '{"zzz": 1}', "p.yaml": dtext}})
@@ -283,10 +306,15 @@ def replay(case, w):
     res = core.ShardResult()
     c = Ctx(w, 0, 1, 1, "quick", res, {"prop": "C08"})
     bad = []
-    for channel, r in run_all_channels(c, case["rules"], case["data"], "replay"):
-        s = core.crash_signature(r)
-        if s:
-            bad.append("%s:%s" % (channel, s))
+    ovf = core.Worker(binary=core.OVF_BIN) if os.path.exists(core.OVF_BIN) else None
+    try:
+        for channel, r in run_all_channels(c, case["rules"], case["data"], "replay") + (run_all_channels(c, case["rules"], case["data"], "replay", ovf) if ovf else []):
+            s = core.crash_signature(r)
+            if s:
+                bad.append("%s:%s" % (channel, s))
+    finally:
+        if ovf:
+            ovf.close()
     names = re.findall(r"^rule (\w+)\s*(?:when|\{)", case["rules"], re.M)
     try:
         doc = json.loads(case["data"])
@@ -350,7 +378,7 @@ def memcheck(ctx_seed, tier):
 
 def main(tier, seed):
     t0 = time.time()
-    core.build(need_cli=True)
+    core.build(need_cli=True, need_ovf=True)
     res = core.run_shards(shard, seed, tier, "C08", extra={"timeout": 25.0})
     os.makedirs(core.SCRATCH, exist_ok=True)
     reports, njobs = memcheck(seed, tier)
@@ -362,7 +390,7 @@ def main(tier, seed):
     res.extra["distinct_parse_error_positions"] = len(pos)
     shapes = [k for k in res.counts if k.startswith("shape:")]
     mr, sp = res.counts["mutated_rules"], res.counts["mutated_rules_still_parse"]
-    floor = {"cases": (res.cases, 5000), "adversarial_shapes": (len(shapes), 25), "mutated_rules_still_parsing_percent": (int(100 * sp / max(1, mr)), 5),
+    floor = {"cases": (res.cases, 5000), "adversarial_shapes": (len(shapes), 27), "mutated_rules_still_parsing_percent": (int(100 * sp / max(1, mr)), 5),
              "distinct_parse_error_positions": (len(pos), 100), "channels": (len(res.extra.get("channels", set())), 15), "memcheck_jobs": (njobs, 40)}
     return core.finish("C08", tier, seed, res, t0,
                        rule="(1) grammar-generated rule texts with 1-3 byte/token mutations x documents; (2) 28 adversarial grammatical shapes + generated programs with "
